@@ -120,7 +120,7 @@ def case(spec):
                     if after > RSS_LIMIT_KB and before <= RSS_LIMIT_KB and len(data) <= (4 << 20):
                         res.violation('memory:rel', 'peak RSS %d MiB for an input of %d bytes' % (after // 1024, len(data)),
                                       r2.brief(), files, r2.argv)
-                    if ok and VALGRIND and rng.random() < (0.012 if tier == "quick" else 0.03):
+                    if ok and VALGRIND and rng.random() < float(os.environ.get("VERIF_MEMCHECK_RATE", 0.012 if tier == "quick" else 0.03)):
                         # uninitialised reads are invisible to ASan: memcheck on the release build, sampled
                         v_ = run([VALGRIND, '-q', '--error-exitcode=99', BIN['rel']['dfs']] + pre + fileopts + args,
                                  cwd=tmp, timeout=180)
